@@ -42,7 +42,8 @@ ID = "T08"
 THEOREMS = ["T08_gen_update_eq", "T08_gen_update_loop", "T08_gen_update_root", "T08_gen_policy_probs_unvisited",
             "T08_gen_policy_probs_eq", "T08_multiplier_is_lambda64", "T08_gen_policy_probs_terminal",
             "T08_gen_policy_call_preconditions", "T08_gen_populate_terminal", "T08_gen_populate_expand",
-            "T08_gen_populate_children_legal"]
+            "T08_gen_populate_children_legal", "T08_gen_analyze_tree_eq", "T08_gen_descend_eq", "T08_gen_analyze_tree_good",
+            "T08_gen_analyze_eq", "T08_gen_select_root_move_legal", "T08_gen_get_move_legal"]
 MODEL_TARGETS = ["model/Tak.vo", "model/Road.vo", "model/PySem.vo", "model/Mcts.vo", "model/MctsSem.vo", "model/Solver.vo",
                  "model/LambdaF64.vo", "model/Harness.vo", "model/Lit.vo", "gen/MctsGen.vo"]
 TRUSTED_BASE = [
@@ -72,7 +73,8 @@ _STATE = {}
 
 HEADER = r"""From Coq Require Import ZArith QArith Qabs List Bool.
 From Coq Require Import Floats.SpecFloat.
-From TV Require Import model.Tak model.Road model.Lit model.PySem model.Mcts model.MctsSem model.Solver model.LambdaF64.
+From TV Require Import model.Tak model.Road model.PySem model.Mcts model.MctsSem model.Solver model.LambdaF64.
+From TV Require Import model.Lit.      (* last: the case literals use Lit.M (a move), MctsSem.M is the oracle monad *)
 From TV Require gen.MctsGen.
 Import ListNotations.
 Open Scope Z_scope.
@@ -167,7 +169,7 @@ Definition ppchk (c : (Q * Z * option (list Q) * option (list (Q * Z))) * Z * op
 Definition popchk (c : (Q * option Q * Q) * position * bool * option (list Q * Q) * option (list Q) *
                        (Q * option (list (Z * list Z)) * option (list Q))) : bool :=
   let '(cfg3, p, is_root, ev, nz, (ov0, okids, oprobs)) := c in
-  let cfg := mkPyConfig (fst (fst cfg3)) (snd (fst cfg3)) (snd cfg3) in
+  let cfg := mkPyConfig (fst (fst cfg3)) (snd (fst cfg3)) (snd cfg3) 0 0 in
   let r := MctsGen.populate (fun _ => match ev with Some e => Ok e | None => Crash OracleExhausted end)
                             (fun _ _ => match nz with Some l => Ok l | None => Crash OracleExhausted end)
                             cfg (PyNode p None 0 0 0 None None) is_root in
@@ -186,6 +188,51 @@ Definition popchk (c : (Q * option Q * Q) * position * bool * option (list Q * Q
     | Some a, Some b => qs_close (1 # 100000) b a
     | _, _ => false
     end
+  | _ => false
+  end.
+
+(* ---- (c) whole searches: the regenerated analyze_tree on the recorded streams against the observed final tree ---- *)
+Record ost2 := mkO { o_ch : list Z; o_ev : list eval; o_nz : option (list Q) }.
+Definition m_multi (pol : option (list Q)) : MctsSem.M ost2 Z :=
+  fun s => match pol, o_ch s with
+           | None, _ => Crash TypeError
+           | Some _, c :: r => Ok (c, mkO r (o_ev s) (o_nz s))
+           | Some _, [] => Crash OracleExhausted
+           end.
+Definition m_mono : MctsSem.M ost2 Q := fun s => Ok (0%Q, s).
+Definition m_eval (_ : position) : MctsSem.M ost2 (list Q * Q) :=
+  fun s => Ok (fst (next_eval (o_ev s)), mkO (o_ch s) (snd (next_eval (o_ev s))) (o_nz s)).
+Definition m_dir (_ : Z) (_ : option Q) : MctsSem.M ost2 (list Q) :=
+  fun s => match o_nz s with Some l => Ok (l, s) | None => Crash OracleExhausted end.
+Fixpoint node_of_py (n : pynode) : node :=
+  match n with
+  | PyNode p m v0 va sm cp ks =>
+    Node p m v0 va (Z.to_nat sm) [] (match cp with Some l => l | None => [] end)
+         (match ks with Some l => Some (map node_of_py l) | None => None end)
+  end.
+Definition gen_analyze_tree (cfg : pyconfig) (t : pynode) (st : ost2) : res (pynode * ost2) :=
+  MctsGen.analyze_tree ost2 m_multi m_mono m_eval m_dir Q inject_Z Qmult (fun x d => (x / inject_Z d)%Q)
+                       (fun pi _ _ => Ok pi) 4%Q (Z.to_nat 2000) cfg t [] st.
+(* every phase = one call of analyze_tree on the tree itself or on the subtree at `path` (the same convention as
+   model/Mcts.v run_phases); all recorded choices must be used up *)
+Fixpoint gen_phases (cutoff mix : Q) (phs : list phase) (n : pynode) (evs : list eval) : option (pynode * list eval) :=
+  match phs with
+  | [] => Some (n, evs)
+  | ph :: r =>
+    match pt_get n (ph_path ph) with
+    | Ok t =>
+      let alpha := match ph_noise ph with Some _ => Some (3 # 10)%Q | None => None end in
+      match gen_analyze_tree (mkPyConfig cutoff alpha mix 0 (ph_limit ph)) t (mkO (concat (ph_css ph)) evs (ph_noise ph)) with
+      | Ok (t', st) => match o_ch st with [] => gen_phases cutoff mix r t' (o_ev st) | _ :: _ => None end
+      | _ => None
+      end
+    | _ => None
+    end
+  end.
+Definition searchchk (c : (Z * Z) * (Z * Z) * position * list phase * list eval * onode) : bool :=
+  let '(co, mx, p0, phs, evs, obs) := c in
+  match gen_phases (fq co) (fq mx) phs (py_new_root p0) evs with
+  | Some (n, []) => node_agrees (1 # 100000)%Q (table (size p0)) (node_of_py n) obs
   | _ => false
   end.
 """
@@ -354,7 +401,13 @@ def run_spec(spec):
     finally:
         c08mod.Recorder = orig_recorder
     rng = _random.Random(c08.spec_key(spec))
-    out = {"update": [], "populate": [], "policy": [], "crash": trace["crash"], "spec": spec}
+    out = {"update": [], "populate": [], "policy": [], "search": [], "crash": trace["crash"], "spec": spec}
+    problems, astats = c08.audit(trace)
+    if (not trace["crash"] and not problems and c08.representable(trace) and not astats["inexact_noise_mix"]
+            and not astats["hypothesis_not_met"]):
+        out["search"].append((c08.case_term(trace), {"cat": f"size{spec['size']}:" + ("reused" if len(spec["phases"]) > 1 else "fresh")
+                                                            + (":noise" if spec.get("noise") else ""),
+                                                     "phases": [p["limit"] for p in spec["phases"]]}))
 
     def sample(l, k):
         return l if len(l) <= k else rng.sample(l, k)
@@ -407,7 +460,7 @@ def volumes(run):
                 stacked=1)
 
 
-QUICK_TARGET = {"update": 150, "policy": 150, "populate": 120}
+QUICK_TARGET = {"update": 150, "policy": 150, "populate": 120, "search": 40}
 
 
 def balanced(items, target):
@@ -435,7 +488,8 @@ def correspondence(run):
     fams = {"update": ("list (Q * Q * Z) * list (Q * Q * Z)", "updchk"),
             "policy": ("(Q * Z * option (list Q) * option (list (Q * Z))) * Z * option (Z * list Q) * bool", "ppchk"),
             "populate": ("(Q * option Q * Q) * position * bool * option (list Q * Q) * option (list Q) * "
-                         "(Q * option (list (Z * list Z)) * option (list Q))", "popchk")}
+                         "(Q * option (list (Z * list Z)) * option (list Q))", "popchk"),
+            "search": ("(Z * Z) * (Z * Z) * position * list phase * list eval * onode", "searchchk")}
     # (a) the semantics library
     sem = sem_cases(run.rng, 420 if run.quick else 7000)
     cases = {"sem": core.Cases(ID, "sem", HEADER, "semcase", "semchk", shard=(60 if run.quick else 400))}
@@ -450,11 +504,12 @@ def correspondence(run):
         if run.quick:
             items = balanced(items, QUICK_TARGET[fam])
         cats[fam] = Counter(m["cat"] for _, m in items)
-        cs = core.Cases(ID, fam, HEADER, ctype, chk, shard=(12 if run.quick else 60) if fam != "populate" else (8 if run.quick else 25))
+        shard = {"populate": (8 if run.quick else 25), "search": 2}.get(fam, 12 if run.quick else 60)
+        cs = core.Cases(ID, fam, HEADER, ctype, chk, shard=shard)
         for term, meta in items:
             cs.add(term, meta)
         cases[fam] = cs
-    with ThreadPoolExecutor(max_workers=4) as ex:      # the four families side by side (each runs its shards in parallel)
+    with ThreadPoolExecutor(max_workers=5) as ex:      # the families side by side (each runs its shards in parallel)
         outs = dict(zip(cases, ex.map(lambda c: c.run(), cases.values())))
     failing, shard_fail, nshards = outs["sem"]
     run.oblige(f"correspondence:MctsSem.v against CPython / torch ({nshards} shards)", not shard_fail, str(shard_fail)[:1500])
@@ -472,9 +527,12 @@ def correspondence(run):
         run.oblige(f"correspondence:gen/MctsGen.v {fam} against the implementation ({nshards} shards, {len(cs)} recorded calls)",
                    not shard_fail, str(shard_fail)[:1500])
         run.count(len(cs), len(set(cs.terms)),
-                  f"one evaluation = one recorded call of {fam} re-computed by the generated function inside Coq and "
-                  "compared with what the implementation did (calls chosen round-robin over the categories shown); "
-                  "distinct by literal",
+                  (f"one evaluation = one recorded call of {fam} re-computed by the generated function inside Coq and "
+                   "compared with what the implementation did (calls chosen round-robin over the categories shown); "
+                   "distinct by literal") if fam != "search" else
+                  ("one evaluation = one recorded history (evaluator answers, choices, noise) on which the regenerated "
+                   "analyze_tree is evaluated inside Coq, phase by phase, and its final tree compared node for node with the "
+                   "implementation's (visits, value, v_zero, moves, positions exact; child priors within 1e-5)"),
                   [{k: v for k, v in m.items() if k != "spec"} for m in cs.metas[:2]], dict(cats[fam]), label=fam)
         for meta in failing[:3]:
             run.violation(f"gen-{fam}-{c08.spec_key(meta['spec'])}",
